@@ -103,8 +103,8 @@ def sess_damaged(seed, explore=False):
             damaged.append((li, ci, bad))
     evs, doc, text = session.record_import(lines)
     if doc is not None:
-        evs.append(session.record_call(doc, {'op': 'dumps', 'args': session.dumps_args(), 'exact': True}))
-        evs.append(session.record_call(doc, {'op': 'dumps', 'args': session.dumps_args(enc='ekern'), 'exact': True}))
+        evs.append(session.record_call(doc, {'op': 'dumps', 'args': session.dumps_args(), 'exact': True, 'malformed': True}))
+        evs.append(session.record_call(doc, {'op': 'dumps', 'args': session.dumps_args(enc='ekern'), 'exact': True, 'malformed': True}))
         evs.append(session.record_call(doc, {'op': 'listing', 'args': {'incall': False, 'inc': ['ERROR']}}))
     s = dp.finish_session(lines, evs, text, seed, dp.features(lines) | {'damaged:%d' % len(damaged)}, classes)
     s['damaged'] = damaged
@@ -133,7 +133,7 @@ def main():
         if 'history' in case:
             cells = [gen.lit('err' if t in STRICT else 'text', t) for t in case['history']]
             raise MachineryError('replay of a history: re-run the check; histories are enumerated deterministically')
-        docs.validate_sessions(run, [sess_damaged(case['seed'], explore='valid_plus_stopper_suffix' in a.replay_case.get('classes', []))])
+        docs.validate_sessions(run, [sess_damaged(case['seed'], explore='valid_plus_stopper_suffix' in a.replay_case.get('classes', []))], relevant=docs.relevant_for(run.pid))
         return run.finish()
     import multiprocessing as mp
     with mp.get_context('fork').Pool(16) as pool:
@@ -152,7 +152,7 @@ def main():
     for s in sx:
         s['tags'] = list(s['tags']) + ['explored']
     docs.selftest_session(next(s for s in sess if len(s['log']) > 10))
-    docs.validate_sessions(run, sess + sx)
+    docs.validate_sessions(run, sess + sx, relevant=docs.relevant_for(run.pid))
     for s in sess:
         if s['damaged']:
             run.nontrivial.add(s['text'])
